@@ -11,7 +11,8 @@ var confirmedCounts = map[string]map[string][2]int{ // rule -> prop -> {default,
 	"R2":  {"C11": {27, 52}, "C16": {2, 42}, "C20": {7, 7}},
 	"R3":  {"C11": {24, 24}},
 	"R4":  {"C03": {11, 11}, "C11": {11, 11}},
-	"R6":  {"C16": {0, 30}, "C17": {28, 28}, "C18": {19, 44}, "C19": {19, 74}, "C20": {9, 9}},
+	"R5":  {"C11": {9, 11}},
+	"R6":  {"C04": {9, 9}, "C16": {0, 30}, "C17": {28, 28}, "C18": {19, 44}, "C19": {19, 74}, "C20": {9, 9}},
 	"R7":  {"C17": {25, 28}, "C19": {22, 25}},
 	"R8":  {"C18": {12, 15}},
 	"R9":  {"C20": {14, 14}},
@@ -22,7 +23,7 @@ var confirmedCounts = map[string]map[string][2]int{ // rule -> prop -> {default,
 	"R14": {"C01": {28, 28}, "C04": {28, 28}, "C09": {28, 28}},
 	"R15": {"C03": {4, 4}, "C04": {8, 8}, "C05": {2, 2}},
 	"R16": {"C05": {2, 2}},
-	"R17": {"C05": {4, 4}, "C06": {4, 4}},
+	"R17": {"C05": {5, 5}, "C06": {5, 5}},
 	"R18": {"C06": {2, 2}, "C13": {4, 4}, "C15": {0, 3}},
 	"R19": {"C02": {6, 6}},
 	"R20": {"C03": {2, 2}},
